@@ -44,3 +44,37 @@ PROPS["C17"] = Spec(
     thorough_cases=60000,
     assumptions=["PyYAML-free: merge_config only", "reference merge in harness/engines/config_merge.py"],
 )
+
+
+_E2_BOUNDS = {"quick": "5-40 ops, <=8 contexts, depth<=4, par blocks of 2-3 tasks, both backends",
+              "thorough": "5-70 ops, <=10 contexts, depth<=4, par blocks of 2-4 tasks, both backends"}
+_E2_GEN = ("histories of new-child / enter / leave / add_resource / add_resource_factory / lookup (8 lookup APIs) / "
+           "parallel sub-histories over a growing context tree, drawn by a model-guided composite strategy; the "
+           "reference model is applied online and every open context's get_resources view is compared after every op; ")
+
+PROPS["C02"] = Spec(
+    engine="harness.engines.resources", bounds=_E2_BOUNDS, quick_cases=1500, thorough_cases=12000,
+    rule=_E2_GEN + "non-trivial = tree depth>=2 and an addition to a context that already had a constructed child or a "
+    "sibling, followed by a lookup of that pair from a different context; distinct = distinct canonical JSON",
+    assumptions=COMMON_ASSUMPTIONS,
+)
+PROPS["C03"] = Spec(
+    engine="harness.engines.resources", bounds=_E2_BOUNDS, quick_cases=1500, thorough_cases=12000,
+    rule=_E2_GEN + "40% of adds reuse a taken pair, invalid names/None/invalid types/invalid teardown callbacks are injected; "
+    "non-trivial = a raising add/factory registration with >=2 types, or a generation into a context that already holds "
+    "one of the factory's pairs",
+    assumptions=COMMON_ASSUMPTIONS,
+)
+PROPS["C04"] = Spec(
+    engine="harness.engines.resources", bounds=_E2_BOUNDS, quick_cases=1500, thorough_cases=12000,
+    rule=_E2_GEN + "factories sync/async with 0-2 checkpoints, types by argument or annotation; par blocks race lookups of "
+    "one async factory; non-trivial = a generation followed by creation of a child and a lookup of that factory in the "
+    "child, or a par block with >=2 async lookups of one checkpointing factory",
+    assumptions=COMMON_ASSUMPTIONS,
+)
+PROPS["C18"] = Spec(
+    engine="harness.engines.resources", bounds=_E2_BOUNDS, quick_cases=1500, thorough_cases=12000,
+    rule=_E2_GEN + "a resource_added stream is opened on every entered context and drained up to a sentinel before it is "
+    "left; non-trivial = >=2 listening contexts and at least one successful and one failing add/registration",
+    assumptions=COMMON_ASSUMPTIONS,
+)
